@@ -305,8 +305,8 @@ func (s *c13Server) do(k c13Call) (string, int) {
 	var status int
 	var err error
 	switch k.kind {
-	case 'u':
-		body, status, err = s.raw(http.MethodPost, "/parameter/value/"+id, itoa(k.v))
+	case 'u', 'b':
+		body, status, err = s.raw(http.MethodPost, "/parameter/value/"+id, string(k.payload()))
 	case 'd':
 		body, status, err = s.raw(http.MethodGet, "/parameter/value/"+id, "")
 	default:
@@ -327,7 +327,7 @@ func (s *c13Server) do(k c13Call) (string, int) {
 	if status != 200 {
 		return "err", status
 	}
-	if k.kind == 'u' {
+	if k.kind == 'u' || k.kind == 'b' {
 		return "ok", status
 	}
 	n, perr := strconv.Atoi(strings.TrimSpace(string(body)))
@@ -370,6 +370,19 @@ func c13HTTPSeq(s *c13Server) {
 	K := 4 + c.Rng.Intn(21)
 	var queue []c13Call
 	var calls, resps []string
+	afterRejected := func(p int) {
+		queue = append(queue, c13Call{kind: 'd', p: p})
+		for _, pi := range c.Rng.Perm(len(b.prods)) {
+			if s.rel[b.prods[pi]][p] > 0 {
+				queue = append(queue, c13Call{kind: 'a', p: b.prods[pi]})
+			}
+		}
+	}
+	if c.Rng.Intn(4) == 0 {
+		p := b.pars[c.Rng.Intn(len(b.pars))]
+		queue = append(queue, c13Call{kind: 'b', p: p, v: c.Rng.Intn(1000)})
+		afterRejected(p)
+	}
 	lastRead := map[int]bool{}
 	updated := map[int]bool{} // producers not read since the last update
 	for j := 0; j < K; j++ {
@@ -381,15 +394,20 @@ func c13HTTPSeq(s *c13Server) {
 			case r < 35:
 				k.kind, k.p = 'u', b.pars[c.Rng.Intn(len(b.pars))]
 				switch q := c.Rng.Intn(100); {
-				case q < 15:
+				case q < 6:
+					k.kind, k.v = 'b', c.Rng.Intn(1000) // a message that does not decode -> 500
+					if c.Rng.Intn(2) == 0 {
+						afterRejected(k.p)
+					}
+				case q < 20:
 					k.v = cur[k.p]
 					c.Note("http.seq.update-with-the-current-value")
-				case q < 35:
+				case q < 38:
 					k.v = c.Rng.Intn(5)
 				default:
 					k.v = s.unique()
 				}
-				if c.Rng.Intn(3) == 0 {
+				if k.kind == 'u' && c.Rng.Intn(3) == 0 {
 					for _, pi := range c.Rng.Perm(len(b.prods)) {
 						queue = append(queue, c13Call{kind: 'a', p: b.prods[pi]})
 					}
@@ -417,6 +435,9 @@ func c13HTTPSeq(s *c13Server) {
 		}
 		if status != 200 {
 			c.Note("http.status=" + itoa(status))
+		}
+		if k.kind == 'b' {
+			c.Note("http.seq.update-rejected")
 		}
 		switch {
 		case k.p == c13Unknown:
